@@ -90,7 +90,69 @@ def run_case(c, pid):
   return out
 
 
+def dict_valued(c):
+  """variables whose value is a (nested) dict: the first value comes from an argument (init) or from the variables passed in (apply), later
+  writes replace it by new dicts. Neither the argument nor the variables passed in may change, and repeating the call gives the same result."""
+  import copy
+  import flax
+  import flax.linen as nn
+
+  def nest(depth, val):
+    return {'a': jnp.asarray(float(val)), **({'sub': nest(depth - 1, val + 1)} if depth > 0 else {})}
+
+  def bump(d):
+    return {k: (bump(v) if isinstance(v, dict) else v + 1.0) for k, v in d.items()}
+
+  def total(d):
+    return sum(total(v) if isinstance(v, dict) else float(v) for v in d.values())
+
+  class Leaf(nn.Module):
+    @nn.compact
+    def __call__(self, d):
+      v = self.variable('state', 't', lambda: d)
+      for _ in range(c['writes']):
+        v.value = bump(v.value)
+      return total(v.value)
+
+  class Top(nn.Module):
+    @nn.compact
+    def __call__(self, d):
+      m = Leaf(name='leaf') if c['child'] else None
+      if m is not None:
+        return m(d)
+      v = self.variable('state', 't', lambda: d)
+      for _ in range(c['writes']):
+        v.value = bump(v.value)
+      return total(v.value)
+  snap = lambda t: jax.tree_util.tree_map(lambda a: float(a), t)
+  arg = nest(c['depth'], c['val'])
+  arg0 = snap(arg)
+  out = {}
+  y1, v1 = Top().init_with_output(jax.random.key(0), arg)
+  out['arg_after_init'] = snap(arg) == arg0
+  y2, _ = Top().init_with_output(jax.random.key(0), arg)
+  out['init_repeatable'] = float(y1) == float(y2)
+  out['init_value'] = float(y1) == total(arg0) + c['writes'] * (c['depth'] + 1)
+  v1 = flax.core.unfreeze(v1)
+  v1s = snap(v1)
+  y3, upd = Top().apply(v1, arg, mutable=['state'])
+  out['vars_after_apply'] = snap(v1) == v1s and snap(arg) == arg0
+  y4, _ = Top().apply(v1, arg, mutable=['state'])
+  out['apply_repeatable'] = float(y3) == float(y4)
+  out['apply_value'] = float(y3) == float(y1) + c['writes'] * (c['depth'] + 1)
+  return out
+
+
 def main(payload):
+  if 'dict_valued' in payload:
+    res = []
+    for c in payload['dict_valued']:
+      try:
+        res.append({'ok': dict_valued(c)})
+      except Exception as e:  # pylint: disable=broad-except
+        import traceback
+        res.append({'err': type(e).__name__, 'tb': traceback.format_exc()[-900:]})
+    return {'dict_valued': res}
   res = []
   for i, c in enumerate(payload['cases']):
     try:
